@@ -268,6 +268,18 @@ def dispatchCmp : Dispatch := fun W op args =>
     let m := "ok " ++ boolStr (fbigEq x y) ++ " " ++ ordStr c ++ " " ++ ordStr c'
     let sc' := specFCmp B x y
     pure (chk m ("ok " ++ boolStr (sc' == .eq) ++ " " ++ ordStr sc' ++ " " ++ ordStr (specFCmp B y x)))
+  | "f.zero", [b, p, xa, ka] => do
+    -- every producer applied to an exact zero returns the canonical zero (significand 0, exponent 0): what
+    -- `normalize` makes of 0 * B^k, equal to ZERO in both senses (the base tag may carry a letter suffix
+    -- selecting another rounding mode / conversion target in the harness)
+    let B ← (b.takeWhile Char.isDigit).toNat?
+    if B < 2 then none
+    let _ ← parseDecNat p; let _ ← parseInt xa; let k ← parseDec ka
+    let z := (FRepr.mk 0 k).normalize B
+    let z0 : FRepr := FRepr.mk 0 0
+    let c := reprCmpSameBase B (exactDigits B) z z0 none
+    let tag := if fbigEq z z0 && ordStr c == "eq" then "zero-routes-agree" else "BAD model-zero"
+    pure (chk ("ok " ++ intToHex z.signif ++ " " ++ decStr z.exp ++ " " ++ tag) "ok 0 d:0 zero-routes-agree")
   | "f.routes", [sa, ea] => do
     let sg ← parseInt sa; let ex ← parseDec ea
     let x := (FRepr.mk sg ex).normalize 10
